@@ -30,6 +30,34 @@ var corpusDocs = []string{
 	`{ab{... on Beta{tol{__typename}} ... on Alpha{tol{__typename}}}}`,
 	`{ab{... on Alpha{ton{__typename}} ... on Beta{ton{__typename}}}}`,
 	`{ab{... on Beta{ton{__typename}} ... on Alpha{ton{__typename}}}}`,
+	// overlapping fields across parent types: interface / object (must merge), two different objects (need not)
+	`{named{f: name ... on Alpha{f: nick}}}`,
+	`{named{... on Alpha{f: nick} f: name}}`,
+	`{named{friend(n:1){name} ... on Alpha{friend(n:2){name}}}}`,
+	`{named{friend{x: name} ... on Beta{friend{x: nick}}}}`,
+	`{named{... on Alpha{f: name} ... on Beta{f: nick}}}`,
+	`{named{... on Alpha{friend(n:1){name}} ... on Beta{friend(n:2){name}}}}`,
+	`{ab{... on Named{f: name} ... on Alpha{f: nick}}}`,
+	`{named{f: name ... on Named{f: nick}}}`,
+	`{named{f: nick(n:1) ... on Alpha{f: nick(n:1)}}}`,
+	// a variable-using fragment shared by two operations
+	`query A($x:Int){...f} query B($x:Int){...f} fragment f on Query {arg(x:$x)}`,
+	`query A($x:Int){...f} query B{...f} fragment f on Query {arg(x:$x)}`,
+	`query A{...f} query B($x:Int){...f} fragment f on Query {arg(x:$x)}`,
+	`query A($x:Int){...g} query B($x:Int){...g} fragment g on Query {...f} fragment f on Query {arg(x:$x)}`,
+	`query A($x:Int){...g} query B($x:String){...g} fragment g on Query {...f} fragment f on Query {arg(x:$x)}`,
+}
+
+// Named and Tagged share only the gated implementation; GI, GG, Gated need the feature
+var gatingDocs = []string{
+	`{named{... on Tagged{id}}}`,
+	`{tagged{... on Named{name}}}`,
+	`{node(id:"1"){... on Tagged{id} ... on Named{name}}}`,
+	`{tagged{...F}} fragment F on Named {name}`,
+	`{named{... on Gated{id}}}`,
+	`{alpha{... on GI{i}}}`,
+	`{named{... on GG{__typename}}}`,
+	`{tagged{... on Gamma{id}}}`,
 }
 
 func generate(h *hx.H) {
@@ -38,6 +66,24 @@ func generate(h *hx.H) {
 	for _, src := range corpusDocs {
 		src := src
 		emit(h, func(*rng.R) docCase { return docCase{W: w0, Src: src, Intent: "any", Tag: "corpus"} })
+	}
+	// feature gating: the same documents with and without the feature
+	var wGate, wPlain *world
+	for seed := uint64(1); wGate == nil || wPlain == nil; seed++ {
+		w := buildWorld(rng.New(seed), false)
+		if _, ok := fieldsOf(w.S.QueryType())["tagged"]; !ok {
+			continue
+		}
+		if w.Features.Has("gate") && wGate == nil {
+			wGate = w
+		} else if !w.Features.Has("gate") && wPlain == nil {
+			wPlain = w
+		}
+	}
+	for _, src := range gatingDocs {
+		src := src
+		emit(h, func(*rng.R) docCase { return docCase{W: wGate, Src: src, Intent: "any", Tag: "corpus-gate"} })
+		emit(h, func(*rng.R) docCase { return docCase{W: wPlain, Src: src, Intent: "any", Tag: "corpus-plain"} })
 	}
 	sw := smallWorld()
 	k := 3
